@@ -14,7 +14,20 @@ LEVEL_TEXT = ("On the attribute-store model (objects with their own __dict__, li
 LEVEL_NOTE = ("After the fix: commit for D7. Instance-data names only: names that resolve on the class (separator, properties, "
               "methods) are the link's own by Python's lookup order. Cyclic target chains are outside the model (fuel). Trusted: Lean "
               "kernel, standard axioms; the mirror lean/Anytree/Model/Attr.lean; the extractor for the name lists.")
-THEOREMS = []
+THEOREMS = [
+    ("Anytree.Props.C20.link_read_step", "full"),
+    ("Anytree.Props.C20.link_write_step", "full"),
+    ("Anytree.Props.C20.setattr_preserves_clean", "full"),
+    ("Anytree.Props.C20.setattr_target", "full"),
+    ("Anytree.Props.C20.getattr_eq_readS", "full"),
+    ("Anytree.Props.C20.setattr_stores_on_target", "full"),
+    ("Anytree.Props.C20.write_then_read", "full"),
+    ("Anytree.Props.C20.missing_attr_error", "full"),
+    ("Anytree.Props.C20.ctorLink_clean", "full"),
+    ("Anytree.Props.C20.bookkeeping_names_agree", "full"),
+    ("Anytree.Props.C20.structure_independent", "full"),
+    ("Anytree.Props.C20.D7_witness", "witness"),
+]
 NOT_COVERED = []
 PREDICATE_SPEC = True
 NAMES = ["foo", "bar", "x", "_p", "name", "id"]
